@@ -363,7 +363,7 @@ type zzWorld struct {
 	params *chaincfg.Params
 	txs    []*zzTx
 	l      *zzLedger
-	last   func() // last event, for repeated delivery
+	last   *zzEvent // last event, for repeated delivery
 	seen   map[int32]bool
 }
 
@@ -430,9 +430,17 @@ func (w *zzWorld) insert(ns walletdb.ReadWriteBucket, t int, block *BlockMeta) e
 	return nil
 }
 
-// step applies one event chosen among the chain-consistent ones. It returns
-// false when the chosen alternative is not enabled (path is dropped).
-func (w *zzWorld) step(allowRepeat bool) bool {
+// zzEvent is one chosen event: apply runs the store operation inside one
+// database transaction and returns its error; model updates the ledger.
+type zzEvent struct {
+	name  string
+	apply func(w *zzWorld) error
+	model func()
+}
+
+// pick chooses one event among the chain-consistent ones (nil = the chosen
+// alternative is not enabled and the path is dropped).
+func (w *zzWorld) pick(allowRepeat bool) *zzEvent {
 	n := len(w.txs)
 	l := w.l
 	// event menu: see(t) | mineNew(t) | mineSame(t) | remove(t) | rollback(k) | repeat
@@ -441,19 +449,20 @@ func (w *zzWorld) step(allowRepeat bool) bool {
 		nEv++
 	}
 	c := verifrt.Choice(nEv, "event")
-	var ev func()
 	switch {
 	case c < n:
 		t := c
 		if !l.canSeeUnmined(t) {
-			return false
+			return nil
 		}
-		verifrt.Note("see " + w.txs[t].def.name)
-		ev = func() {
-			must(w.update(func(ns walletdb.ReadWriteBucket) error { return w.insert(ns, t, nil) }))
-			if l.status[t] == zzUnknown {
-				l.status[t] = zzUnmined
-			}
+		return &zzEvent{
+			name:  "see " + w.txs[t].def.name,
+			apply: func(w *zzWorld) error { return w.update(func(ns walletdb.ReadWriteBucket) error { return w.insert(ns, t, nil) }) },
+			model: func() {
+				if l.status[t] == zzUnknown {
+					l.status[t] = zzUnmined
+				}
+			},
 		}
 	case c < 2*n:
 		// confirm in a new block on top of the tip; the block hash variant is
@@ -461,70 +470,87 @@ func (w *zzWorld) step(allowRepeat bool) bool {
 		t := c - n
 		h := l.tip + 1
 		if h > zzBaseHeight+3 || !l.canMine(t, h) {
-			return false
+			return nil
 		}
 		variant := 0
 		if w.hadBlock(h) {
 			variant = 1
 		}
-		verifrt.Note("mine " + w.txs[t].def.name + " in new block " + string(rune('0'+h-zzBaseHeight)))
-		ev = func() {
-			b := zzBlock(h, variant)
-			must(w.update(func(ns walletdb.ReadWriteBucket) error { return w.insert(ns, t, b) }))
-			if l.status[t] != zzMined {
-				w.seen[h] = true
-				l.mine(t, h, variant)
-			}
+		b := zzBlock(h, variant)
+		return &zzEvent{
+			name:  "mine " + w.txs[t].def.name + " in new block " + string(rune('0'+h-zzBaseHeight)),
+			apply: func(w *zzWorld) error { return w.update(func(ns walletdb.ReadWriteBucket) error { return w.insert(ns, t, b) }) },
+			model: func() {
+				if l.status[t] != zzMined {
+					w.seen[h] = true
+					l.mine(t, h, variant)
+				}
+			},
 		}
 	case c < 3*n:
 		// confirm in the current tip block (a block with several wallet txs)
 		t := c - 2*n
 		h := l.tip
 		if h < zzBaseHeight || l.nInTip == 0 || !l.canMine(t, h) {
-			return false
+			return nil
 		}
 		variant := l.tipVar
-		verifrt.Note("mine " + w.txs[t].def.name + " in tip block")
-		ev = func() {
-			b := zzBlock(h, variant)
-			must(w.update(func(ns walletdb.ReadWriteBucket) error { return w.insert(ns, t, b) }))
-			if l.status[t] != zzMined {
-				l.mine(t, h, variant)
-			}
+		b := zzBlock(h, variant)
+		return &zzEvent{
+			name:  "mine " + w.txs[t].def.name + " in tip block",
+			apply: func(w *zzWorld) error { return w.update(func(ns walletdb.ReadWriteBucket) error { return w.insert(ns, t, b) }) },
+			model: func() {
+				if l.status[t] != zzMined {
+					l.mine(t, h, variant)
+				}
+			},
 		}
 	case c < 4*n:
 		t := c - 3*n
 		if l.status[t] != zzUnmined {
-			return false
+			return nil
 		}
-		verifrt.Note("abandon " + w.txs[t].def.name)
-		ev = func() {
-			must(w.update(func(ns walletdb.ReadWriteBucket) error { return w.store.RemoveUnminedTx(ns, w.txs[t].rec) }))
-			l.removeWithDescendants(t)
+		return &zzEvent{
+			name: "abandon " + w.txs[t].def.name,
+			apply: func(w *zzWorld) error {
+				return w.update(func(ns walletdb.ReadWriteBucket) error { return w.store.RemoveUnminedTx(ns, w.txs[t].rec) })
+			},
+			model: func() { l.removeWithDescendants(t) },
 		}
 	case c < 4*n+4:
 		// disconnect every block at height >= h
 		h := int32(zzBaseHeight + (c - 4*n))
 		if h > l.tip+1 || (h == l.tip+1 && l.tip == zzBaseHeight-1) {
-			return false
+			return nil
 		}
-		verifrt.Note("rollback to " + string(rune('0'+h-zzBaseHeight)))
 		if h <= l.tip {
 			verifrt.Reach("reorg")
 		}
-		ev = func() {
-			must(w.update(func(ns walletdb.ReadWriteBucket) error { return w.store.Rollback(ns, h) }))
-			l.rollback(h)
+		return &zzEvent{
+			name: "rollback to " + string(rune('0'+h-zzBaseHeight)),
+			apply: func(w *zzWorld) error {
+				return w.update(func(ns walletdb.ReadWriteBucket) error { return w.store.Rollback(ns, h) })
+			},
+			model: func() { l.rollback(h) },
 		}
 	default:
 		if w.last == nil {
-			return false
+			return nil
 		}
-		verifrt.Note("repeat")
 		verifrt.Reach("repeat")
-		ev = w.last
+		return &zzEvent{name: "repeat (" + w.last.name + ")", apply: w.last.apply, model: w.last.model}
 	}
-	ev()
+}
+
+// step picks and applies one event; false = not enabled.
+func (w *zzWorld) step(allowRepeat bool) bool {
+	ev := w.pick(allowRepeat)
+	if ev == nil {
+		return false
+	}
+	verifrt.Note(ev.name)
+	must(ev.apply(w))
+	ev.model()
 	w.last = ev
 	return true
 }
@@ -643,4 +669,276 @@ func (w *zzWorld) checkUnspent(label string) {
 		}
 	}
 	verifrt.Assert(len(creds) == want, label+"-count")
+}
+
+// ---------------------------------------------------------------- C13 / C02 observations
+
+// wantDetails checks one TxDetails value against the ledger.
+func (w *zzWorld) wantDetails(d *TxDetails, t int, label string) {
+	l := w.l
+	x := w.txs[t]
+	verifrt.Assert(d.Hash == x.hash, label+"-hash")
+	if l.status[t] == zzMined {
+		b := zzBlock(l.height[t], l.variant[t])
+		verifrt.Assert(d.Block.Height == l.height[t] && d.Block.Hash == b.Hash, label+"-block")
+		verifrt.Assert(d.Block.Time.Equal(b.Time), label+"-blocktime")
+	} else {
+		verifrt.Assert(d.Block.Height == -1, label+"-unmined-height")
+	}
+	verifrt.Assert(len(d.MsgTx.TxOut) == x.def.nOuts && len(d.MsgTx.TxIn) == len(x.msg.TxIn), label+"-msgtx-shape")
+	// credits: exactly the credited outputs, with amount, change and spent flags
+	verifrt.Assert(len(d.Credits) == len(x.def.credits), label+"-credit-count")
+	for k, out := range x.def.credits {
+		found := 0
+		for _, c := range d.Credits {
+			if int(c.Index) != out {
+				continue
+			}
+			found++
+			verifrt.Assert(int64(c.Amount) == x.amt[out], label+"-credit-amount")
+			verifrt.Assert(c.Change == x.def.change[k], label+"-credit-change")
+			spent := len(l.spenders(t, uint32(out), 0)) > 0
+			verifrt.Assert(c.Spent == spent, label+"-credit-spent")
+		}
+		verifrt.Assert(found == 1, label+"-credit-once")
+	}
+	// debits: exactly the inputs that spend wallet credits, with the amount
+	want := 0
+	for k, in := range x.def.ins {
+		if in.parent < 0 {
+			continue
+		}
+		isCred, _ := zzIsCredit(&w.txs[in.parent].def, int(in.idx))
+		if !isCred || l.status[in.parent] == zzUnknown {
+			continue
+		}
+		want++
+		idx := uint32(k)
+		if x.def.coinbase {
+			idx++
+		}
+		found := 0
+		for _, db := range d.Debits {
+			if db.Index != idx {
+				continue
+			}
+			found++
+			verifrt.Assert(int64(db.Amount) == w.txs[in.parent].amt[in.idx], label+"-debit-amount")
+		}
+		verifrt.Assert(found == 1, label+"-debit-once")
+	}
+	verifrt.Assert(len(d.Debits) == want, label+"-debit-count")
+}
+
+// checkDetails: direct lookups (TxDetails, UniqueTxDetails) for every
+// transaction of the universe and every candidate block, the unmined hash
+// list, and the dependency order of UnminedTxs.
+func (w *zzWorld) checkDetails(label string) {
+	l := w.l
+	must(w.view(func(ns walletdb.ReadBucket) error {
+		for t, x := range w.txs {
+			d, err := w.store.TxDetails(ns, &x.hash)
+			must(err)
+			if l.status[t] == zzUnknown {
+				verifrt.Assert(d == nil, label+"-removed-not-reported")
+			} else {
+				verifrt.Assert(d != nil, label+"-known-reported")
+				if d != nil {
+					w.wantDetails(d, t, label)
+				}
+			}
+			// unique lookups: unmined slot and every candidate block
+			u, err := w.store.UniqueTxDetails(ns, &x.hash, nil)
+			must(err)
+			verifrt.Assert((u != nil) == (l.status[t] == zzUnmined), label+"-unique-unmined")
+			for h := int32(zzBaseHeight); h <= zzBaseHeight+3; h++ {
+				for v := 0; v < 2; v++ {
+					b := zzBlock(h, v)
+					u, err := w.store.UniqueTxDetails(ns, &x.hash, &b.Block)
+					must(err)
+					here := l.status[t] == zzMined && l.height[t] == h && l.variant[t] == v
+					verifrt.Assert((u != nil) == here, label+"-unique-block")
+					if u != nil && here {
+						w.wantDetails(u, t, label+"-u")
+					}
+				}
+			}
+		}
+		// unmined hashes
+		hs, err := w.store.UnminedTxHashes(ns)
+		must(err)
+		n := 0
+		for t := range w.txs {
+			if l.status[t] == zzUnmined {
+				n++
+				found := 0
+				for _, h := range hs {
+					if *h == w.txs[t].hash {
+						found++
+					}
+				}
+				verifrt.Assert(found == 1, label+"-unmined-hash-once")
+			}
+		}
+		verifrt.Assert(len(hs) == n, label+"-unmined-hash-count")
+		// rebroadcast order: every unmined tx once, parents first
+		txs, err := w.store.UnminedTxs(ns)
+		must(err)
+		verifrt.Assert(len(txs) == n, label+"-unminedtxs-count")
+		pos := map[chainhash.Hash]int{}
+		for k, m := range txs {
+			pos[m.TxHash()] = k
+		}
+		for t, x := range w.txs {
+			if l.status[t] != zzUnmined {
+				continue
+			}
+			pt, ok := pos[x.hash]
+			verifrt.Assert(ok, label+"-unminedtxs-present")
+			for _, in := range x.def.ins {
+				if in.parent >= 0 && l.status[in.parent] == zzUnmined {
+					pp, ok2 := pos[w.txs[in.parent].hash]
+					verifrt.Assert(ok2 && pp < pt, label+"-unminedtxs-parent-first")
+				}
+			}
+		}
+		return nil
+	}))
+}
+
+// checkRange: RangeTransactions over a symbolic [begin, end] (either
+// direction, -1 = unmined) reports every known transaction in range exactly
+// once, at its current status; run inside a Scope.
+func (w *zzWorld) checkRange(label string) {
+	l := w.l
+	begin := verifrt.I32("begin")
+	end := verifrt.I32("end")
+	verifrt.Assume(verifrt.And(begin >= -1, begin <= zzBaseHeight+5))
+	verifrt.Assume(verifrt.And(end >= -1, end <= zzBaseHeight+5))
+	count := make([]int, len(w.txs))
+	var heights []int32
+	must(w.view(func(ns walletdb.ReadBucket) error {
+		return w.store.RangeTransactions(ns, begin, end, func(ds []TxDetails) (bool, error) {
+			verifrt.Assert(len(ds) > 0, label+"-nonempty-batch")
+			h := ds[0].Block.Height
+			heights = append(heights, h)
+			for k := range ds {
+				d := &ds[k]
+				verifrt.Assert(d.Block.Height == h, label+"-batch-one-block")
+				known := false
+				for t, x := range w.txs {
+					if d.Hash == x.hash {
+						known = true
+						count[t]++
+						verifrt.Assert(l.status[t] != zzUnknown, label+"-removed-not-reported")
+						if l.status[t] != zzUnknown {
+							w.wantDetails(d, t, label)
+						}
+					}
+				}
+				verifrt.Assert(known, label+"-only-known")
+			}
+			return false, nil
+		})
+	}))
+	// effective bounds as documented: negative = unmined / up to the end
+	lo, hi := begin, end
+	fwd := true
+	unminedIn := verifrt.Or(begin < 0, end < 0)
+	if begin < 0 {
+		lo = 1 << 30
+	}
+	if end < 0 {
+		hi = 1 << 30
+	}
+	if lo > hi {
+		lo, hi = hi, lo
+		fwd = false
+	}
+	for t := range w.txs {
+		switch l.status[t] {
+		case zzUnknown:
+			verifrt.Assert(count[t] == 0, label+"-unknown-absent")
+		case zzUnmined:
+			verifrt.Assert((count[t] == 1) == unminedIn && count[t] <= 1, label+"-unmined-once")
+		case zzMined:
+			in := l.height[t] >= lo && l.height[t] <= hi
+			verifrt.Assert((count[t] == 1) == in && count[t] <= 1, label+"-mined-once")
+		}
+	}
+	// block order
+	for k := 1; k < len(heights); k++ {
+		a, b := heights[k-1], heights[k]
+		if a == -1 || b == -1 {
+			continue
+		}
+		if fwd {
+			verifrt.Assert(a < b, label+"-ascending")
+		} else {
+			verifrt.Assert(a > b, label+"-descending")
+		}
+	}
+	if begin > end && end >= 0 {
+		verifrt.Reach("range-backwards")
+	}
+	if begin < 0 {
+		verifrt.Reach("range-unmined-first")
+	}
+}
+
+// rebuild constructs a second store directly from the final facts of the
+// ledger (confirmed transactions block by block, then unconfirmed ones in
+// dependency order) – the "direct construction" of C02.
+func (w *zzWorld) rebuild() *zzWorld {
+	w2 := &zzWorld{db: memdb.New(), seen: map[int32]bool{}, params: w.params, clock: w.clock, txs: w.txs, l: w.l}
+	must(walletdb.Update(w2.db, func(tx walletdb.ReadWriteTx) error {
+		ns, err := tx.CreateTopLevelBucket(zzNS)
+		if err != nil {
+			return err
+		}
+		return Create(ns)
+	}))
+	w2.open()
+	l := w.l
+	for h := int32(zzBaseHeight); h <= zzBaseHeight+3; h++ {
+		for ord := 0; ord < len(w.txs); ord++ {
+			for t := range w.txs {
+				if l.status[t] == zzMined && l.height[t] == h && l.order[t] == ord {
+					b := zzBlock(h, l.variant[t])
+					must(w2.update(func(ns walletdb.ReadWriteBucket) error { return w2.insert(ns, t, b) }))
+				}
+			}
+		}
+	}
+	for t := range w.txs {
+		if l.status[t] == zzUnmined {
+			must(w2.update(func(ns walletdb.ReadWriteBucket) error { return w2.insert(ns, t, nil) }))
+		}
+	}
+	return w2
+}
+
+// checkSameBalance: both stores report the same balance for the same fresh
+// minConf and syncHeight; run inside a Scope.
+func zzCheckSameBalance(a, b *zzWorld, label string) {
+	minConf := verifrt.I32("minConf")
+	syncHeight := verifrt.I32("syncHeight")
+	verifrt.Assume(verifrt.And(minConf >= 0, minConf <= 1<<30))
+	tip := a.l.tip
+	if tip < zzBaseHeight {
+		tip = zzBaseHeight
+	}
+	verifrt.Assume(verifrt.And(syncHeight >= tip, syncHeight <= 1<<30))
+	var b1, b2 btcutil.Amount
+	must(a.view(func(ns walletdb.ReadBucket) error {
+		var err error
+		b1, err = a.store.Balance(ns, minConf, syncHeight)
+		return err
+	}))
+	must(b.view(func(ns walletdb.ReadBucket) error {
+		var err error
+		b2, err = b.store.Balance(ns, minConf, syncHeight)
+		return err
+	}))
+	verifrt.Assert(b1 == b2, label)
 }
